@@ -93,6 +93,9 @@ def generate(streams: core.Streams, tier: str) -> dict:
         if gen.chance(w, 0.4):
             c["correlation"]["condition"] = {"gte": 2, "zeta": 1, "alpha": 2, "mid": 3, "omega": 4, "beta": 5}
             kinds.add("malformed_correlation_condition")
+        elif c["correlation"]["type"] == "value_percentile" and gen.chance(w, 0.6):
+            c["correlation"]["condition"].pop("percentile", None)  # the conversion of this correlation rule fails
+            kinds.add("correlation_rule_fails_in_conversion")
         docs.append(c)
         kinds.add("correlation")
     pipeline = None
@@ -218,6 +221,8 @@ def generate(streams: core.Streams, tier: str) -> dict:
     return {"cls": gen.pick(s, ["SimBackend", "SimBackendNE", "SimBackendIn"]),
             "format": fmt_force or gen.pick(s, ["default", "default", "alt", "st"]),
             "validate": gen.chance(s, 0.3), "documents": docs, "pipeline": pipeline, "pipeline2": pipeline2,
+            # a correlation method the backend does not know (every correlation rule fails with a conversion error)
+            "correlation_method": "no_such_method" if ("correlation" in kinds and gen.chance(s, 0.12)) else None,
             "configs": configs, "kinds": sorted(kinds)}
 
 
@@ -264,7 +269,7 @@ def execute(scenario: dict) -> dict:
     try:
         scpath = os.path.join(scratch, "scenario.json")
         with open(scpath, "w") as fh:
-            json.dump({k: sc.get(k) for k in ("cls", "format", "validate", "documents", "pipeline", "pipeline2")}, fh)
+            json.dump({k: sc.get(k) for k in ("cls", "format", "validate", "documents", "pipeline", "pipeline2", "correlation_method")}, fh)
         outs = [_start(scpath, cfg) for cfg in sc["configs"]]
     finally:
         shutil.rmtree(scratch, ignore_errors=True)
